@@ -4,7 +4,15 @@ Generated run states are pushed through the real path
   _outgoing_to_json -> _tcp_send (header format + crypto.encrypt, bytes captured by a fake socket)
   -> crypto.decrypt -> _split_plaintext -> _incoming_from_json
 (and, additionally, through _tcp_incoming_handle_client + _update to a subscriber's on_distributed_update) and
-compared (a) structurally, (b) textually with what was sent, (c) with the Coq model's wire text."""
+compared (a) structurally, (b) textually with what was sent, (c) with the Coq model's wire text.
+
+End to end (Properties/C09e2e.v, Model/Pipeline.v): the same (message, cut, clock) goes through the REAL sender
+(on_decider_update / snapshot -> one iteration of the real _tcp_outgoing -> _tcp_send -> crypto.encrypt, bytes
+captured at sendall; Crypto.Cipher.AES.new replaced by the Python mirror of the model's toy cipher and the nonce
+scripted, so that model and implementation produce the same bytes) and the REAL receiver
+(_tcp_incoming_handle_client on a scripted socket and clock, then _update()), and is compared with
+`send_receive` evaluated in Coq: bytes on the wire, device-manager state, incoming queue, records delivered to
+on_distributed_update."""
 import json
 import struct
 import time
@@ -13,7 +21,7 @@ import common
 from common import zs, zz
 
 PROP = "C09"
-PROPERTY_FILES = ["Properties/C09.v"]
+PROPERTY_FILES = ["Properties/C09.v", "Properties/C09e2e.v"]
 META = dict(
     level_text="Theorems (Coq, closed under the global context; json.dumps/loads and the cipher are explicit premises, "
                "shown satisfiable): for EVERY run record accepted by the constructors -- any identifiers, index, "
@@ -23,7 +31,18 @@ META = dict(
                "a whole message (three lists) survives serialisation, header, encryption, decryption, split and "
                "decoding. Tie to the code: the model's wire text is computed inside Coq and compared with the real "
                "wire text parsed level by level; an independent oracle checks structural and textual identity on "
-               "the implementation for bounded-exhaustive small shapes and seeded random states.",
+               "the implementation for bounded-exhaustive small shapes and seeded random states.  END TO END "
+               "(Properties/C09e2e.v over Model/Pipeline.v, which only composes the functions of Wire.v, Crypto.v, Recv.v "
+               "and Auth.v): for every message a sender builds (any urn/key without spaces of a device the receiver "
+               "knows, any type/flags, any three lists of run records), every cut of the encrypted byte stream into "
+               "reads of 1..recv_bytes bytes (a last read shorter than min_length included) and every timely clock, "
+               "the receiver's queue gets exactly one entry EQUAL to the sender's lists, the peer's address/contact "
+               "times change as C11 says and nothing else changes; premises: json laws, gcm_laws/utf8_laws, C10's "
+               "no-premature-marker (D7).  That the plaintext never ends in U+0000 (D14) is proved, not assumed; the "
+               "two models of _split_plaintext (Wire/Auth) are proved to agree.  Tie: the same (message, cut, clock) "
+               "through the real sender (_tcp_outgoing iteration, toy cipher injected so bytes coincide) and the real "
+               "receiver (_tcp_incoming_handle_client on a scripted socket + _update()) vs send_receive evaluated in "
+               "Coq on the real JSON text: bytes on the wire, device-manager state, queue, delivered records.",
     level_note="Trusted: Coq kernel/vm_compute; the harness (generators, the level-by-level parser of the real wire "
                "text, fake sockets). Modelled, not verified: CPython json (premises loads_dumps, dumps_text, "
                "dumps_obj_brace, exercised on every case by the oracle), AES-GCM (premise crypto_roundtrip = C17). "
@@ -35,7 +54,11 @@ META = dict(
          "non-trivial = the state contains a nested history (complex event) or a character that JSON must escape",
     trusted_base=["harness: generators, level-by-level parser of the real wire text (json.loads per level) and its "
                   "re-encoding in the model's concrete codec, fake socket capturing _tcp_send's bytes",
-                  "CPython json.dumps/json.loads, dict insertion order; PyCryptodome AES-GCM"],
+                  "CPython json.dumps/json.loads, dict insertion order; PyCryptodome AES-GCM",
+                  "end to end: stepped_tcp.py fakes (socket/time modules, SteppedTCP), pC17's scripted get_random_bytes "
+                  "and Python mirror of the toy cipher in place of Crypto.Cipher.AES.new; Model/Pipeline.v's executable "
+                  "CPython-json text codec jdumps/jloads (float texts from a table), used to run the model on the real "
+                  "bytes only - no theorem mentions it; the three-line model of _update (deliveries)"],
     assumptions=["loads_dumps: json.loads(json.dumps(x)) == x (types and dict order kept) for every JSON value x "
                  "(distinct str keys, text strings, finite floats, ints below CPython's 4300-digit str limit)",
                  "dumps_text: json.dumps returns text that UTF-8 can carry (default ensure_ascii: ASCII)",
@@ -44,7 +67,14 @@ META = dict(
                  "the receiver's recursion budget is at least the nesting depth of the state (CPython: ~1000 frames; "
                  "the wire text grows about 4x per nesting level, so memory is exhausted long before)",
                  "NaN / Infinity, tuples, non-str dict keys and lone surrogates are not JSON values: probed and "
-                 "counted separately, never reported"])
+                 "counted separately, never reported",
+                 "end to end: gcm_laws / utf8_laws (C17's premises; the toy cipher and the strict UTF-8 codec satisfy "
+                 "them, proved); no_premature (C10's premise, known finding D7): no proper prefix of the byte stream "
+                 "that ends at a read boundary is >= min_length and ends in BOBO - checked on every generated case, "
+                 "cases outside it are still compared with the model; the nonce draw has the configured length and "
+                 "AES.new accepts the configuration (otherwise encrypt raises: compared too); the receiver knows the "
+                 "sending device and has room in its queue; end-to-end messages are kept below 6000 wire bytes and 40 "
+                 "reads so that the evaluation inside Coq stays cheap"])
 
 # ------------------------------------------------------------------------------------------------ implementation
 _IMPL = None
@@ -791,6 +821,571 @@ def case_size(case):
         return 10 ** 9
 
 
+# ------------------------------------------------------------------------------------------------ end to end
+# Properties/C09e2e.v: Wire + Crypto + Recv + Auth composed (Model/Pipeline.v send_receive).  The same
+# (message, cut, clock) through the real sender and the real receiver, with the model's toy cipher injected.
+E2E_RCV_URN, E2E_RCV_KEY = "rcv", "rk"
+E2E_THIRD = ("dev3", "k3", "10.0.0.3")
+E2E_ACCEPTED = 1000
+E2E_MAX_BYTES = 6000
+E2E_CONFIGS = [  # (aes key, nonce_length, mac_length)
+    ("0123456789abcdef", 16, 16), ("k" * 16, 8, 4), ("A1b2C3d4E5f6G7h8I9j0K1l2", 12, 16),
+    ("0123456789abcdef0123456789ABCDEF", 16, 8), ("z" * 16, 32, 12), ("q" * 24, 9, 5)]
+E2E_BAD_CONFIGS = [("k" * 16, 16, 3), ("k" * 16, 16, 17), ("\xe9" * 16, 16, 16), ("k" * 16, 0, 16)]
+
+
+def _e2e_mods():
+    import stepped_tcp as S
+    import pC17 as P17
+    return S, P17
+
+
+def sum1(b):
+    a = 0
+    for x in b:
+        a = (a + x) % 65521
+    return a
+
+
+def sum2(b):
+    a = 0
+    for i, x in enumerate(b, 1):
+        a = (a + i * x) % 65521
+    return a
+
+
+# the model's own codec (Wire.msg_to_str tdumps) computed from specs read off real objects
+def s_event(e):
+    ents = [("event_type", tval({"S": T_SIMPLE, "C": T_COMPLEX, "A": T_ACTION}[e[0]])), ("event_id", tval(e[1])),
+            ("timestamp", tval(e[2])), ("data", tval(e[3]))]
+    if e[0] == "C":
+        ents += [("phenomenon_name", tval(e[4])), ("pattern_name", tval(e[5])), ("history", tstr_codes(s_hist(e[6])))]
+    elif e[0] == "A":
+        ents += [("phenomenon_name", tval(e[4])), ("pattern_name", tval(e[5])), ("action_name", tval(e[6])),
+                 ("success", tval(e[7]))]
+    return tobj(ents)
+
+
+def s_hist(h):
+    ents = []
+    for g, es in h:
+        tv = [97] + tnum(len(es))
+        for e in es:
+            tv += tstr_codes(s_event(e))
+        ents.append((g, tv))
+    return tobj(ents)
+
+
+def s_record(r):
+    return tobj([("run_id", tval(r[0])), ("phenomenon_name", tval(r[1])), ("pattern_name", tval(r[2])),
+                 ("block_index", tval(r[3])), ("history", tstr_codes(s_hist(r[4])))])
+
+
+def s_msg(lists):
+    ents = []
+    for k, l in zip(K_MSG, lists):
+        tv = [97] + tnum(len(l))
+        for r in l:
+            tv += tstr_codes(s_record(r))
+        ents.append((k, tv))
+    return tobj(ents)
+
+
+def floats_in(x, acc):
+    if isinstance(x, float):
+        acc[fbits(x)] = float.__repr__(x)
+    elif isinstance(x, list):
+        for v in x:
+            floats_in(v, acc)
+    elif isinstance(x, dict):
+        for v in x.values():
+            floats_in(v, acc)
+
+
+def float_table(lists):
+    acc = {}
+
+    def ev(e):
+        floats_in(e[3], acc)
+        if e[0] == "C":
+            for _, es in e[6]:
+                for x in es:
+                    ev(x)
+    for l in lists:
+        for r in l:
+            for _, es in r[4]:
+                for e in es:
+                    ev(e)
+    return sorted(acc.items())
+
+
+def e2e_peers_pre(variant, urn, key, addr):
+    """receiver's view of its peers before the message: [(urn, key, addr, last_comms, last_attempt, flag_reset,
+    stash sizes)] in device order (sender, receiver itself, a third device)"""
+    if variant == 0:
+        return [(urn, key, "10.0.0.1", 0, 0, True, (0, 0, 0)), (E2E_RCV_URN, E2E_RCV_KEY, "10.0.0.2", 0, 0, True, (0, 0, 0)),
+                E2E_THIRD + (0, 0, True, (0, 0, 0))]
+    if variant == 1:
+        return [(urn, key, addr, 950, 960, False, (1, 0, 2)), (E2E_RCV_URN, E2E_RCV_KEY, "10.0.0.2", 7, 0, True, (0, 0, 0)),
+                E2E_THIRD + (50, 60, False, (0, 2, 0))]
+    return [(urn, key, "10.0.0.1", 999, 5, True, (0, 1, 0)), (E2E_RCV_URN, E2E_RCV_KEY, "10.0.0.2", 0, 0, False, (0, 0, 0)),
+            E2E_THIRD + (0, 990, True, (3, 0, 0))]
+
+
+def e2e_send(ec):
+    """the real sender: returns (bytes handed to sendall | None when encrypt raised, sent objects, note)"""
+    S, P17 = _e2e_mods()
+    im = impl()
+    c = ec["msg"]
+    lists = [c["completed"], c["halted"], c["updated"]]
+    objs = [[im.record(r) for r in l] for l in lists]
+    devs = [im.Device("10.0.0.1", 9001, c["urn"], c["key"]), im.Device("10.0.0.2", 9002, E2E_RCV_URN, E2E_RCV_KEY)]
+    dec = S.StubDecider(snapshot=objs)
+    cr = im.AES(ec["akey"], ec["n"], ec["m"])
+    dist, _ = S.make_stepped(devices=devs, me=0, crypto=cr, decider=dec, flag_reset=bool(c["flags"] & 1))
+    clock = S.FakeClock(start=float(E2E_ACCEPTED))
+    net = S.FakeNet(clock=clock)
+    d = dist._devices[E2E_RCV_URN]
+    rec = []
+    with S.installed(net, clock), P17.scripted_rng(list(ec["draw"])), P17.patched_new(P17.toy_new(rec)):
+        dist.mark_running()
+        if c["type"] == 0:
+            d.last_comms = E2E_ACCEPTED              # SYNC period: the queued update is sent
+            dist.on_decider_update(objs[0], objs[1], objs[2], True)
+        else:
+            d.last_comms = 0                         # RESYNC period: the decider's snapshot is sent
+        try:
+            dist.outgoing_iterations(1)
+        except ValueError as e:                      # AES.new rejected the configuration
+            return None, objs, "encrypt raised %s" % type(e).__name__
+    if len(net.sent) != 1:
+        raise RuntimeError("sender issued %d sendall calls" % len(net.sent))
+    if not rec:
+        raise RuntimeError("encrypt did not go through Crypto.Cipher.AES.new")
+    return net.sent[0][1], objs, None
+
+
+class _E2EClock:
+    """scripted int(time.time()) readings; the last reading is held (an implementation that looks at the clock
+    more often than once per read is not penalised), for at most 64 further calls (no endless loop)"""
+
+    def __init__(self, readings):
+        self.readings, self.extra, self.calls, self.log, self.now = list(readings), 0, 0, [], 0.0
+
+    def time(self):
+        self.calls += 1
+        if len(self.readings) > 1:
+            self.now = self.readings.pop(0)
+        else:
+            self.extra += 1
+            if self.extra > 64 or not self.readings:
+                import stepped_tcp as S
+                raise S.ScriptExhausted("clock read %d times" % self.calls)
+            self.now = self.readings[0]
+        self.log.append(self.now)
+        return self.now
+
+    def sleep(self, dt):
+        pass
+
+    def advance(self, dt):
+        pass
+
+
+def e2e_receive(ec, data):
+    """the real receiver on a scripted socket and clock.  Returns dict(peers, queue, delivered, exc, log)."""
+    S, P17 = _e2e_mods()
+    im = impl()
+    c = ec["msg"]
+    pre = e2e_peers_pre(ec["pre"], c["urn"], c["key"], ec["addr"])
+    devs = [im.Device(a, 9001 + i, u, k) for i, (u, k, a, _, _, _, _) in enumerate(pre)]
+    cr = im.AES(ec["akey"], ec["n"], ec["m"])
+    dist, dec = S.make_stepped(devices=devs, me=1, crypto=cr, timeout_receive=ec["trecv"], recv_bytes=ec["nrecv"],
+                               max_size_incoming=ec["qmax"])
+    for (u, _, _, lc, la, fr, st) in pre:
+        dm = dist._devices[u]
+        dm.last_comms, dm.last_attempt, dm.flag_reset = lc, la, fr
+        dm.append_stash(completed=[S.make_run_serial(i) for i in range(st[0])],
+                        halted=[S.make_run_serial(10 + i) for i in range(st[1])],
+                        updated=[S.make_run_serial(20 + i) for i in range(st[2])])
+    script, pos = [], 0
+    for k in ec["spec"]:
+        if k == 0:
+            script.append(S.CLOSED)
+        elif k < 0:
+            script.append(S.TIMEOUT)
+        else:
+            script.append(data[pos:pos + k])
+            pos += k
+    clock = _E2EClock(ec["clock"][1:])
+    client = S.ScriptedClient(script)
+    exc = exc2 = None
+    with S.installed(None, clock), P17.patched_new(P17.toy_new([])):
+        try:
+            dist.handle_client(client, ec["addr"], ec["clock"][0])
+        except BaseException as e:   # noqa: B902  (harness conditions are BaseException)
+            if isinstance(e, (KeyboardInterrupt, SystemExit)):
+                raise
+            exc = e
+        ps = dist.peer_state()
+        peers = []
+        for u in dist._devices:
+            p = ps[u]
+            peers += [ord(ch) for ch in p["addr"]] + [-1, p["last_comms"], p["last_attempt"], int(p["flag_reset"])]
+            peers += list(p["stash"]) + [-2]
+        queue = [[list(it.get(k, [])) for k in im.keys] if isinstance(it, dict) else it for it in dist.incoming_items()]
+        try:
+            dist.dispatch()
+        except Exception as e:
+            exc2 = e
+    return dict(peers=peers, peer_state=ps, queue=queue, delivered=[list(map(list, u)) for u in dec.updates],
+                exc=exc, exc2=exc2, nrecv=client.recv_calls)
+
+
+def e2e_vector(data, r):
+    im = impl()
+
+    def enc(item):
+        return s_msg([[im.spec_record(x) for x in lst] for lst in item])
+    out = [1, len(data), sum1(data), sum2(data)] + r["peers"] + [-3]
+    for it in r["queue"]:
+        out += enc(it) + [-4]
+    out += [-5]
+    for it in r["delivered"]:
+        out += enc(it) + [-4]
+    return out
+
+
+def e2e_coq_input(ec, specs):
+    c = ec["msg"]
+    pre = e2e_peers_pre(ec["pre"], c["urn"], c["key"], ec["addr"])
+    peers = "[%s]" % "; ".join("((%s, %s, %s), (%d, %d, %s, %s))" % (cstr(u), cstr(k), cstr(a), lc, la,
+                                                                      "true" if fr else "false", zs(list(st)))
+                               for (u, k, a, lc, la, fr, st) in pre)
+    ft = "[%s]" % "; ".join("(%d, %s)" % (b, cstr(t)) for b, t in float_table(specs))
+    m = "([%s], [%s], [%s])" % tuple("; ".join(crecord(r) for r in l) for l in specs)
+    return "((((%s, (%s, %s)), (%d, %d, %d)), (%s, %d), %s), ((%s, %s, %s), (%s, %s), %s), ((%s, %s), %s))" % (
+        cstr(ec["akey"]), zz(ec["n"]), zz(ec["m"]), ec["trecv"], ec["nrecv"], ec["fuel"], peers, ec["qmax"],
+        cstr(ec["addr"]), zs(list(ec["draw"])), cstr(c["urn"]), cstr(c["key"]), zz(c["type"]), zz(c["flags"]), m,
+        zs(ec["spec"]), zs(ec["clock"]), ft)
+
+
+def e2e_boundaries(ec, n):
+    """stream offsets after every recv that returns bytes (recv(k) re-splits what is available)"""
+    out, pos = [], 0
+    for k in ec["spec"]:
+        if k <= 0:
+            continue
+        k = min(k, n - pos)
+        while k > 0:
+            step = min(k, ec["nrecv"])
+            pos += step
+            k -= step
+            out.append(pos)
+    return out
+
+
+def e2e_premises(ec, data):
+    """which premises of C09e2e_delivery hold for this case (the theorem speaks about exactly these)"""
+    n = len(data)
+    b = e2e_boundaries(ec, n)
+    minlen = 16 + ec["n"] + ec["m"] + 4
+    whole = bool(b) and b[-1] == n
+    premature = any(p < n and p >= minlen and data[p - 4:p] == b"BOBO" for p in b)
+    reads = len([p for p in b if p <= n])
+    rd = ec["clock"][1:1 + reads]
+    timely = len(rd) == reads and all(t - ec["clock"][0] < ec["trecv"] for t in rd)
+    return dict(whole=whole, no_premature=not premature, timely=timely, reads=reads)
+
+
+def e2e_oracle(ec, data, objs, r, prem):
+    """the property itself on the implementation (no model): under the theorem's premises the receiver delivers
+    exactly what was sent, updates the sender's address / contact times, and changes nothing else"""
+    im = impl()
+    c = ec["msg"]
+    if not (prem["whole"] and prem["no_premature"] and prem["timely"]):
+        return None
+    if r["exc"] is not None:
+        tn = type(r["exc"]).__name__
+        if tn in ("ScriptExhausted", "BlockedForever"):
+            return dict(signature="e2e:not-delivered:still-reading-after-whole-message",
+                        what="all %d bytes were read in %d timely reads and the loop went on reading (%s)"
+                             % (len(data), prem["reads"], tn))
+        if tn == "BoboDistributedTimeoutError":
+            return dict(signature="e2e:not-delivered:timeout", what="whole message read in time, then: %s" % str(r["exc"])[:120])
+        return dict(signature="e2e:receiver-raises:%s" % tn,
+                    what="handle_client raised %s: %s" % (tn, str(r["exc"])[:160]))
+    if r["exc2"] is not None:
+        return dict(signature="e2e:update-raises:%s" % type(r["exc2"]).__name__,
+                    what="_update raised %s: %s" % (type(r["exc2"]).__name__, str(r["exc2"])[:160]))
+    if len(r["queue"]) != 1:
+        return dict(signature="e2e:queue-entries", what="%d entries in the incoming queue, expected 1" % len(r["queue"]))
+    want_calls = 1 if any(objs) else 0
+    if len(r["delivered"]) != want_calls:
+        return dict(signature="e2e:delivery-count", what="%d on_distributed_update calls, expected %d"
+                    % (len(r["delivered"]), want_calls))
+    for which, got in [("queue", r["queue"][0])] + [("delivered", x) for x in r["delivered"]]:
+        for nme, s_, g_ in zip(("completed", "halted", "updated"), objs, got):
+            if len(s_) != len(g_):
+                return dict(signature="e2e:differs:list-length", what="%s %s: %d sent, %d received"
+                            % (which, nme, len(s_), len(g_)))
+            for i, (rs, rg) in enumerate(zip(s_, g_)):
+                if not isinstance(rg, im.R):
+                    return dict(signature="e2e:differs:record-type", what="%s[%d] arrived as %s" % (nme, i, type(rg).__name__))
+                d = diff_record(im.spec_record(rs), im.spec_record(rg), "%s[%d]" % (nme, i))
+                if d:
+                    return dict(signature="e2e:differs:" + d[1], what="%s: content differs at %s" % (which, d[0]))
+                if rs.to_json_str() != rg.to_json_str():
+                    return dict(signature="e2e:reserialised-text-differs", what="%s %s[%d]" % (which, nme, i))
+    pre = e2e_peers_pre(ec["pre"], c["urn"], c["key"], ec["addr"])
+    for (u, _, a, lc, la, fr, st) in pre:
+        p = r["peer_state"][u]
+        if u == c["urn"]:
+            exp = dict(addr=ec["addr"], last_comms=0 if c["flags"] & 1 else lc, last_attempt=0 if c["flags"] & 1 else la,
+                       flag_reset=fr, stash=tuple(st))
+        else:
+            exp = dict(addr=a, last_comms=lc, last_attempt=la, flag_reset=fr, stash=tuple(st))
+        if p != exp:
+            return dict(signature="e2e:peer-state:%s" % ("sender" if u == c["urn"] else "other"),
+                        what="peer %r is %r, expected %r" % (u, p, exp))
+    return None
+
+
+def e2e_cuts(rng, n, nrecv, trecv, quick):
+    """(spec, clock, kind) list for a stream of n bytes"""
+    a = E2E_ACCEPTED
+
+    def timely(reads, extra=2):
+        t, out = a, []
+        for _ in range(reads + extra):
+            out.append(t)
+            if rng.random() < 0.2 and t - a < trecv - 1:
+                t += 1
+        return [a] + out
+
+    def reads_of(spec):
+        return sum((min(k, n) + nrecv - 1) // nrecv for k in spec if k > 0)
+    cuts = []
+    cuts.append(([n], "whole"))
+    p = rng.randint(1, n - 1)
+    cuts.append(([p, n - p], "two-way"))
+    p, q = sorted(rng.sample(range(1, n), 2))
+    cuts.append(([p, q - p, n - q], "three-way"))
+    short = rng.randint(1, min(20, n - 1))
+    cuts.append(([n - short, short], "last-read-short"))
+    k = rng.choice([1, 7, 16, 50, nrecv])
+    k = max(k, (n + 39) // 40)                     # at most ~40 reads
+    cuts.append(([min(k, n - i) for i in range(0, n, k)], "uniform-%s" % ("nrecv" if k == nrecv else "small")))
+    pts = sorted(rng.sample(range(1, n), min(n - 1, rng.randint(3, 9))))
+    cuts.append(([y - x for x, y in zip([0] + pts, pts + [n])], "random"))
+    out = []
+    pick = cuts if not quick else [cuts[0]] + rng.sample(cuts[1:], 2)
+    for spec, kind in pick:
+        if any(k > nrecv for k in spec):
+            kind += "+oversize-item"
+        out.append((spec, timely(reads_of(spec)), kind))
+    # outside the premises: truncated then closed / silent, late clock
+    if rng.random() < (0.25 if quick else 0.5):
+        t = rng.randint(1, n - 1)
+        if rng.random() < 0.5:
+            out.append(([t, 0, 0, 0], [a, a, a + 1, a + trecv - 1, a + trecv, a + trecv], "truncated-closed"))
+        else:
+            out.append(([t, -1], [a, a, a + 1, a + 2], "truncated-silent"))
+    if rng.random() < (0.1 if quick else 0.3):
+        p = rng.randint(1, n - 1)
+        out.append(([p, n - p], [a, a, a + trecv, a + trecv], "late-second-read"))
+    # a stream that keeps arriving in full-size reads, one second apart, past the deadline (measured from accept):
+    # given up, nothing applied
+    if n > nrecv * (trecv + 1) and rng.random() < (0.5 if quick else 0.8):
+        spec = [min(nrecv, n - i) for i in range(0, n, nrecv)]
+        out.append((spec, [a] + [a + i for i in range(len(spec) + 2)], "slow-stream-past-deadline"))
+    return out
+
+
+def e2e_message_cases(ctx):
+    """messages for the end-to-end check: small shapes, list placements, edges, seeded random (small texts)"""
+    rng = ctx.rng
+    out = []
+    shapes = list(small_shapes(0))
+    for h in rng.sample(shapes, 10 if ctx.quick else 60):
+        out.append(dict(urn="u", key="k", type=rng.choice([0, 2]), flags=rng.choice([0, 1]), completed=[], halted=[],
+                        updated=[["r\x00", "p", "", 2, h]]))
+    rec = ["r", "ph", "pa", 1, [["", [["S", "e", 1, {"completed": ["BOBO", 1.5, -0.0, 1e22]}]]]]]
+    rec2 = ["r2", "ph", "", 3, [["g", [["C", "c", 2, None, "p", "q", [["", [["A", "a", 3, 1.5, "p", "q", "x", False]]]]]]]]]
+    for i, (a, b, c) in enumerate(list_shapes()):
+        if ctx.quick and i % 3:
+            continue
+        out.append(dict(urn="u\x00BOBO", key="k\"", type=2 if i % 2 else 0, flags=i % 2, completed=[rec, rec2][:a],
+                        halted=[rec2, rec][:b], updated=[rec, rec][:c]))
+    out.append(dict(urn="u", key="k", type=0, flags=0, completed=[], halted=[], updated=[]))
+    out.append(dict(urn="\xe9\U0001f600", key="日", type=2, flags=1, completed=[], halted=[], updated=[]))
+    want = 45 if ctx.quick else 330
+    tries = 0
+    while len(out) < want + 30 and tries < 20 * want:
+        tries += 1
+        c = gen_case(rng)
+        try:
+            if len(json.dumps(c)) > 1500 or max([depth_record(r) for r in case_records(c)] or [0]) > 2:
+                continue
+        except (TypeError, ValueError):
+            continue
+        out.append(c)
+    return out
+
+
+def e2e_public(ec):
+    return dict(e2e=True, **{k: (list(v) if isinstance(v, (bytes, tuple)) else v) for k, v in ec.items()})
+
+
+def e2e(ctx, res):
+    rng = ctx.rng
+    im = impl()
+    t0 = time.time()
+    coq_cases, metas, failures = [], [], []
+    addrs = ["10.9.9.9", "10.0.0.1", "fe80::1", "h\xf6st"]
+    n_msgs = 0
+    prem_all = prem_out = 0
+    msgs = e2e_message_cases(ctx)
+    bad = [(cfg, msgs[i % len(msgs)]) for i, cfg in enumerate(E2E_BAD_CONFIGS)]
+    plan = [(E2E_CONFIGS[i % len(E2E_CONFIGS)], c) for i, c in enumerate(msgs)] + bad
+    for (akey, n, m), c in plan:
+        nrecv = rng.choice([2048, 2048, 64, 100, 333])
+        trecv = rng.choice([3, 3, 5, 2])
+        if len(coq_cases) >= (260 if ctx.quick else 1500):
+            break
+        base = dict(akey=akey, n=n, m=m, trecv=trecv, nrecv=nrecv, fuel=8, qmax=rng.choice([0, 0, 0, 4]),
+                    pre=rng.choice([0, 1, 2]), addr=rng.choice(addrs), draw=[rng.randrange(256) for _ in range(max(n, 0))],
+                    msg={k: c[k] for k in ("urn", "key", "type", "flags", "completed", "halted", "updated")})
+        try:
+            data, objs, note = e2e_send(base)
+        except Exception as e:
+            failures.append(dict(signature="e2e:sender-raises:%s" % type(e).__name__,
+                                 what="real sender path raised %s: %s" % (type(e).__name__, str(e)[:160]),
+                                 case=e2e_public(dict(base, spec=[], clock=[E2E_ACCEPTED])), detail=None))
+            continue
+        if data is not None and len(data) > E2E_MAX_BYTES:      # keeps the evaluation inside Coq cheap
+            res.count("e2e_skipped_large_message")
+            continue
+        n_msgs += 1
+        if data is not None:
+            base["nrecv"] = nrecv = max(nrecv, (len(data) + 39) // 40)   # at most 40 reads for the whole stream
+        specs = [[im.spec_record(x) for x in lst] for lst in objs]
+        if data is None:
+            ec = dict(base, spec=[1], clock=[E2E_ACCEPTED, E2E_ACCEPTED])
+            coq_cases.append((e2e_coq_input(ec, specs), [0]))
+            metas.append((ec, "encrypt-raises"))
+            res.count("e2e_encrypt_raises")
+            res.note_case(("e2e", len(coq_cases)), False)
+            continue
+        for spec, clock, kind in e2e_cuts(rng, len(data), nrecv, trecv, ctx.quick):
+            ec = dict(base, spec=spec, clock=clock)
+            r = e2e_receive(ec, data)
+            prem = e2e_premises(ec, data)
+            inside = prem["whole"] and prem["no_premature"] and prem["timely"]
+            prem_all += 1
+            prem_out += 0 if inside else 1
+            res.count("e2e_cut_%s" % kind)
+            res.count("e2e_type_%d_flags_%d" % (c["type"], c["flags"]))
+            if prem["whole"] and not prem["no_premature"]:
+                res.count("e2e_premature_marker_at_read_boundary_D7")
+            res.note_case(("e2e", len(coq_cases)), prem["reads"] > 1)
+            f = e2e_oracle(ec, data, objs, r, prem)
+            if f is not None:
+                failures.append(dict(f, case=e2e_public(ec), detail=None))
+            try:
+                vec = e2e_vector(data, r)
+            except Exception as e:
+                res.mismatches.append(dict(case=e2e_public(ec), impl="received objects cannot be read back: %r" % (e,),
+                                           model=None))
+                continue
+            coq_cases.append((e2e_coq_input(ec, specs), vec))
+            metas.append((ec, kind))
+    res.extra["e2e_messages_through_real_sender"] = n_msgs
+    res.extra["e2e_cases"] = len(coq_cases)
+    res.extra["e2e_cases_inside_theorem_premises"] = prem_all - prem_out
+    res.extra["e2e_cases_outside_premises_still_compared"] = prem_out
+    if coq_cases:
+        shard = max(4, (len(coq_cases) + common.NPROC - 1) // common.NPROC)
+        mism, errs = common.coq_run_cases("C09e2e", "Model.Wire Model.Pipeline", "run_C09e2e", "e2e_input", coq_cases, shard=shard)
+        res.errors += errs
+        res.traces_validated += len(coq_cases) - len(mism)
+        for i, model_out in mism[:6]:
+            res.mismatches.append(dict(case=e2e_public(metas[i][0]), impl=e2e_show(coq_cases[i][1]),
+                                       model=e2e_show(model_out)))
+        if len(mism) > 6:
+            res.mismatches += [dict(case=None, impl=None, model=None)] * (len(mism) - 6)
+        res.extra["e2e_disagreements"] = len(mism)
+    res.extra["e2e_seconds"] = round(time.time() - t0, 1)
+    return failures
+
+
+def e2e_show(vec):
+    """readable form of a run_C09e2e output vector"""
+    if not vec or vec[0] != 1:
+        return "encrypt raised (no bytes)" if vec == [0] else repr(vec[:40])
+    head = "bytes=%d sums=%d,%d" % tuple(vec[1:4])
+    rest = vec[4:]
+    try:
+        i, j = rest.index(-3), rest.index(-5)
+    except ValueError:
+        return head + " " + repr(rest[:60])
+    peers, cur = [], []
+    for x in rest[:i]:
+        if x == -2:
+            peers.append(cur)
+            cur = []
+        else:
+            cur.append(x)
+    ptxt = []
+    for p in peers:
+        k = p.index(-1) if -1 in p else len(p)
+        ptxt.append("%s%r" % ("".join(chr(ch) for ch in p[:k]), p[k + 1:]))
+
+    def msgs(xs):
+        out, cur = [], []
+        for x in xs:
+            if x == -4:
+                out.append("".join(chr(ch) if 0 <= ch < 0x110000 else "<%d>" % ch for ch in cur))
+                cur = []
+            else:
+                cur.append(x)
+        return out
+    return "%s peers=%s queue=%s delivered=%s" % (head, ptxt, msgs(rest[i + 1:j]), msgs(rest[j + 1:]))
+
+
+def e2e_replay(case):
+    ec = {k: v for k, v in case.items() if k != "e2e"}
+    im = impl()
+    data, objs, note = e2e_send(ec)
+    specs = [[im.spec_record(x) for x in lst] for lst in objs]
+    print("message :", json.dumps(ec["msg"])[:2000])
+    print("link    : key=%r nonce=%d mac=%d recv_bytes=%d timeout_receive=%d addr=%r pre-state %d"
+          % (ec["akey"], ec["n"], ec["m"], ec["nrecv"], ec["trecv"], ec["addr"], ec["pre"]))
+    print("cut     : spec=%r clock=%r" % (ec["spec"], ec["clock"]))
+    if data is None:
+        vec, fail = [0], None
+        print("impl    : %s" % note)
+    else:
+        r = e2e_receive(ec, data)
+        prem = e2e_premises(ec, data)
+        vec = e2e_vector(data, r)
+        fail = e2e_oracle(ec, data, objs, r, prem)
+        print("premises:", prem)
+        print("impl    :", e2e_show(vec)[:3000], "| exception: %r" % (r["exc"],) if r["exc"] is not None else "")
+    model, log = common.coq_eval("C09e2e", "Model.Wire Model.Pipeline", "run_C09e2e %s" % e2e_coq_input(ec, specs))
+    print("model   :", e2e_show(model)[:3000] if model is not None else log[-1500:])
+    rc = 0
+    if model is not None and model != vec:
+        print("model and implementation differ")
+        rc = 1
+    if fail is not None:
+        print("FAILS: [%s] %s" % (fail["signature"], fail["what"]))
+        rc = 1
+    if rc == 0:
+        print("the message arrives unchanged through sender, wire, receive loop and authentication; model agrees")
+    return rc
+
+
 # ------------------------------------------------------------------------------------------------ run
 def wire_key_obligation(res):
     """the dictionary keys and type tags on the real wire are the model's (as sets per level)"""
@@ -974,6 +1569,8 @@ def run(ctx, res):
             res.mismatches += [dict(case=None, impl=None, model=None)] * (len(mism) - 10)
     # validity predicate vs the real constructors
     wf_cases(ctx, res)
+    # end to end: real sender, any cut, real receiver vs send_receive in Coq
+    failures += e2e(ctx, res)
 
     # failures: smallest first, shrunk
     failures.sort(key=lambda f: case_size(f["case"]))
@@ -982,6 +1579,9 @@ def run(ctx, res):
         seen.setdefault(f["signature"], f)
     out = []
     for sig, f in seen.items():
+        if f["case"].get("e2e"):        # end-to-end cases (another shape) are reported as found, smallest first
+            out.append(f)
+            continue
         small = shrink(f["case"], sig)
         f2, _ = check_case(dict(small))
         if f2 is not None and f2["signature"] == sig:
@@ -1059,6 +1659,8 @@ def replay(obj):
         except Exception as e:
             print("implementation: constructors reject the record: %s: %s" % (type(e).__name__, e))
         return 0
+    if case.get("e2e"):
+        return e2e_replay(case)
     if "updated" not in case:
         print(json.dumps(obj, indent=1)[:4000])
         return 0
